@@ -170,13 +170,15 @@ class WsgiResult:
         return sorted((str(k).lower(), str(v)) for k, v in self.headers)
 
 
-def wsgi_call(app, r_or_env, max_items=None, close_after=None):
+def wsgi_call(app, r_or_env, max_items=None, close_after=None, on_start=None):
     """run a WSGI app like a server would; returns WsgiResult (exceptions are observations)"""
     env = r_or_env if isinstance(r_or_env, dict) else make_environ(r_or_env)
     res = WsgiResult()
 
     def start_response(status, headers, exc_info=None):
         res.start_calls.append((status, list(headers), len(res.items)))
+        if on_start is not None:
+            on_start()      # (a fault injected at this very moment, e.g. the file being served is removed)
         return lambda data: res.items.append(data)
 
     it = None
@@ -249,7 +251,7 @@ class AsgiResult:
 
 
 def asgi_call(app, r_or_scope, messages=None, *, extensions=None, send_fail_at=None, disconnect_after_sends=None,
-              timeout=20.0):
+              timeout=20.0, on_start=None):
     """run an ASGI app to completion on a private loop; exceptions are observations.
 
     After the request messages are consumed receive() blocks (as a real server does) until the
@@ -310,6 +312,8 @@ def asgi_call(app, r_or_scope, messages=None, *, extensions=None, send_fail_at=N
                     data += b
             m["_resolved"] = data
         res.events.append(m)
+        if on_start is not None and m.get("type") == "http.response.start":
+            on_start()
         if disconnect_after_sends is not None and n >= disconnect_after_sends:
             disc.set()
             await asyncio.sleep(0)
